@@ -5,7 +5,7 @@
 EXTENDS Naturals, Sequences, FiniteSets, TLC, Json, IOUtils, SequencesExt
 CONSTANTS Trace, Clause(_)
 VARIABLES l, bad, nbad
-MaxBad == 2000
+MaxBad == 1000000
 Init == l = 1 /\ bad = {} /\ nbad = 0
 Step == /\ l <= Len(Trace)
         /\ LET c == Clause(Trace[l]) IN
